@@ -130,7 +130,7 @@ impl PageZeroHeader {
             config.page_size as u32,
             config.min_keys_per_page as u8,
             config.num_siblings_per_side as u8,
-            config.cache_size as u16,
+            config.cache_size.min(u16::MAX as usize) as u16,
         )
     }
 
